@@ -96,3 +96,98 @@ pub fn compressed_container<S: Src>(s: &mut S) {
         Err(_) => {}
     }
 }
+
+/// C08 + C01 for the encryption wrapper itself (CryptoWriter / CryptoReader over instrumented I/O, real ring):
+/// what CryptoReader hands out is what CryptoWriter accepted, independently of how the inner reader chunks the data
+/// (1..7 bytes per call, Interrupted patterns) and of how the payload is split over write calls; a hard failure of
+/// the inner writer or reader at any offset surfaces as Err; nothing panics (including Drop after a failure).
+pub fn crypto_stream<S: Src>(s: &mut S) {
+    use crate::native_misc::{NReader, NWriter};
+    use savefile::{CryptoReader, CryptoWriter};
+    use std::io::{Read, Write};
+    let key = [7u8; 32];
+    const LENS: [usize; 7] = [0, 1, 100, 99_999, 100_000, 100_001, 230_000];
+    let n = LENS[s.below(LENS.len())];
+    let payload: Vec<u8> = (0..n).map(|i| (i * 31 % 251) as u8).collect();
+    let piece = [1usize << 30, 7, 4096, 100_000][s.below(4)];
+    // fault-free stream
+    let mut good = NWriter::new();
+    {
+        let mut cw = match CryptoWriter::new(&mut good, key) { Ok(c) => c, Err(_) => panic!("C08: CryptoWriter::new on a working writer") };
+        for c in payload.chunks(piece.max(1)) { assert!(cw.write_all(c).is_ok(), "C08: writes to a working writer succeed"); }
+        assert!(cw.flush().is_ok());
+    }
+    let stream = good.buf.clone();
+    match s.below(4) {
+        0 => {
+            // reader: any chunking / interruption pattern of the inner reader
+            let mut rd = NReader::new(&stream);
+            rd.chunk = [1usize, 2, 3, 5, 7, 11, 4096, 1 << 30][s.below(8)];
+            rd.interrupt_mask = [0u64, 1, 0b1010_1010, 0x5555_5555_5555_5555, 0b100][s.below(5)];
+            let mut cr = match CryptoReader::new(&mut rd, key) { Ok(c) => c, Err(_) => panic!("C08: CryptoReader::new on intact data (chunked inner reader)") };
+            let mut back = Vec::new();
+            let want = [1usize, 13, 100_000, 1 << 20][s.below(4)];
+            let mut buf = vec![0u8; want];
+            loop {
+                match cr.read(&mut buf) {
+                    Ok(0) => break,
+                    Ok(k) => back.extend_from_slice(&buf[..k]),
+                    Err(e) if e.kind() == std::io::ErrorKind::Interrupted => continue,
+                    Err(e) => panic!("C08: reading intact data through a chunking inner reader failed: {:?}", e),
+                }
+                assert!(back.len() <= n, "C08: more plaintext than was written");
+            }
+            assert!(back == payload, "C08/C01: the decrypted stream does not depend on how the inner reader chunks the data");
+        }
+        1 => {
+            // reader: hard failure of the inner reader before the end
+            if stream.is_empty() { return; }
+            let at = { let c = [0usize, 5, 12, 13, 19, 20, 21, stream.len() / 2, stream.len() - 1]; c[s.below(c.len())].min(stream.len() - 1) };
+            let mut rd = NReader::new(&stream);
+            rd.fail_at = at;
+            rd.chunk = [3usize, 1 << 30][s.below(2)];
+            match CryptoReader::new(&mut rd, key) {
+                Err(_) => {}
+                Ok(mut cr) => {
+                    let mut back = Vec::new();
+                    let r = cr.read_to_end(&mut back);
+                    assert!(r.is_err(), "C08: a failure of the inner reader at offset {} of {} surfaces as Err", at, stream.len());
+                    assert!(back.len() <= n && back[..] == payload[..back.len()], "C08: what was handed out before the failure is a prefix of the plaintext");
+                }
+            }
+        }
+        2 => {
+            // writer: hard failure of the inner writer at an offset
+            let at = { let c = [0usize, 5, 12, 13, 20, stream.len() / 2, stream.len().saturating_sub(1)]; c[s.below(c.len())] };
+            if at >= stream.len() { return; }
+            let mut w = NWriter::new();
+            w.fail_at = at;
+            let mut failed = false;
+            match CryptoWriter::new(&mut w, key) {
+                Err(_) => failed = true,
+                Ok(mut cw) => {
+                    for c in payload.chunks(piece.max(1)) { if cw.write_all(c).is_err() { failed = true; break; } }
+                    if cw.flush().is_err() { failed = true; }
+                    // dropping after a failure must not panic
+                }
+            }
+            assert!(failed, "C08: a failure of the inner writer at offset {} of {} surfaces as Err from write or flush", at, stream.len());
+            assert!(w.buf.len() <= at, "C08: nothing accepted beyond the failure point");
+        }
+        _ => {
+            // writer: short writes and interruptions of the inner writer do not change what can be read back
+            let mut w = NWriter::new();
+            w.chunk = [1usize, 3, 4096][s.below(3)];
+            w.interrupt_mask = [0u64, 0b1010_1010, 0x5555_5555_5555_5555][s.below(3)];
+            {
+                let mut cw = match CryptoWriter::new(&mut w, key) { Ok(c) => c, Err(_) => panic!("C08: CryptoWriter::new with a short-writing inner writer") };
+                for c in payload.chunks(piece.max(1)) { assert!(cw.write_all(c).is_ok(), "C08: short writes / interrupted calls of the inner writer are not failures"); }
+                assert!(cw.flush().is_ok());
+            }
+            let mut rd = NReader::new(&w.buf);
+            let mut cr = match CryptoReader::new(&mut rd, key) { Ok(c) => c, Err(_) => panic!("C08: stream written through a short-writing writer must be readable") };
+            let mut back = Vec::new();
+            assert!(cr.read_to_end(&mut back).is_ok() && back == payload, "C08: the stream does not depend on how the inner writer accepts the bytes");
+        }
+    }
+}
